@@ -146,6 +146,30 @@ func RunSocks(x *Ctx) {
 		isValid = true
 	case c.Gen == "pipelined":
 		segs = [][]byte{all}
+	case c.Gen == "raw":
+		// fuzz inputs: the first two bytes give the lengths of the first two client messages
+		raw := RawInput(c)
+		segs = nil
+		if len(raw) >= 2 {
+			l1, l2 := int(raw[0]), int(raw[1])
+			rest := raw[2:]
+			for _, l := range []int{l1, l2} {
+				if l > len(rest) {
+					l = len(rest)
+				}
+				if l > 0 {
+					segs = append(segs, rest[:l])
+				}
+				rest = rest[l:]
+			}
+			if len(rest) > 0 {
+				segs = append(segs, rest)
+			}
+		}
+		if len(segs) == 0 {
+			segs = [][]byte{{}}
+		}
+		desc = fmt.Sprintf("raw[%d]", len(raw))
 	case c.Gen == "extreme":
 		segs, desc = socksExtreme(rng, c.A)
 	case c.Gen == "raw-random":
@@ -219,7 +243,9 @@ func RunSocks(x *Ctx) {
 	}
 	_ = early
 	x.ApplyCut(ec)
-	c.Input = hexTrunc(fedAll, 1<<14)
+	if c.Gen != "raw" {
+		c.Input = hexTrunc(fedAll, 1<<14)
+	}
 	x.R.Count(c.Prefix()+"/input-size", SizeClass(len(fedAll)))
 	good := x.FinishHandshake(ec, call, HsOpts{ConsumedBound: B("socks-consumed"), ExpectSuccess: isValid && c.Cut != "reset"})
 	x.R.Count(c.Prefix()+"/outcome", x.Outcome)
